@@ -683,9 +683,9 @@ impl<T> ValVec32<T> {
             )));
         }
 
-        // SAFETY: Index is bounds checked
+        // SAFETY: Index is bounds checked; assignment drops the element that was stored there
         unsafe {
-            ptr::write(self.ptr.as_ptr().add(index as usize), value);
+            *self.ptr.as_ptr().add(index as usize) = value;
         }
         Ok(())
     }
